@@ -768,6 +768,13 @@ class CeiloChunk(AbstractChunk):
             raise AmpycloudError('Slicing not yet done. You cannot find groups without ' +
                                  'finding slices first !')
 
+        # If the layering was already done, refuse *before* touching anything: re-grouping would
+        # discard the layering information (and metarize() would only notice half-way through).
+        if self._layers is not None:
+            raise AmpycloudError('Layering already done.'
+                                 ' If you look for groups now, you will loose the'
+                                 ' layering information !')
+
         # First, make sure that we can keep track of the isolation status of slices.
         self._slices['isolated'] = None
 
